@@ -38,6 +38,8 @@ def sets_for(tier, seed):
         s.append(("eprrb-%d" % ((seed + 4) % 8 + 1), K("EPRRb", 1, (seed + 4) % 8 + 1), "bfs", None))
         s.append(("epbbw", K("EPBBw", 1, 0), "bfs", None))
         s.append(("epbbb", K("EPBBb", 1, 0), "bfs", None))
+        s.append(("epedgew", K("EPEDGEw", 2, 0, lemmas=1), "bfs", None))
+        s.append(("epedgeb", K("EPEDGEb", 2, 0, lemmas=1), "bfs", None))
         s.append(("epxw-d", K("EPXw", 1, 4), "bfs", None))
         s.append(("epxb-e", K("EPXb", 1, 5), "bfs", None))
         s.append(("castle-1", K("CASTLE", 1, 1), "bfs", None))
@@ -69,6 +71,8 @@ def sets_for(tier, seed):
         s.append(("eprrb", K("EPRRb", 1, 0), "bfs", None))
         s.append(("epbbw", K("EPBBw", 2, 0, lemmas=1), "bfs", None))
         s.append(("epbbb", K("EPBBb", 2, 0, lemmas=1), "bfs", None))
+        s.append(("epedgew", K("EPEDGEw", 3, 0, lemmas=1), "bfs", None))
+        s.append(("epedgeb", K("EPEDGEb", 3, 0, lemmas=1), "bfs", None))
         s.append(("epxw", K("EPXw", 1, 0), "bfs", None))
         s.append(("epxb", K("EPXb", 1, 0), "bfs", None))
         s.append(("castle", K("CASTLE", 1, 0), "bfs", None))
